@@ -771,6 +771,45 @@ func (sf *SexpFunction) IsLazyCallArg(i int) bool {
 	return sf.IsLazyFormal(i)
 }
 
+// formalOfCallArg returns the index of the parameter that the i-th
+// argument expression of a call is bound to. That is i itself, unless
+// the call names its arguments (name: value name: value), which a typed
+// func allows: then a value belongs to the parameter its label names,
+// wherever it stands, and a label belongs to none (-1). The pairing
+// is the one FunctionCallNameTypeCheck makes after the arguments have
+// been evaluated.
+func (sf *SexpFunction) formalOfCallArg(args []Sexp, i int) int {
+	if sf.inputTypes == nil || sf.varargs {
+		return i
+	}
+	var label *SexpSymbol // the label whose value comes next
+	for k, a := range args {
+		if k > i {
+			break
+		}
+		if label != nil {
+			// a is the value of label
+			if k == i {
+				for n, key := range sf.inputTypes.KeyOrder {
+					if ks, ok := key.(*SexpSymbol); ok && ks.name == label.name {
+						return n
+					}
+				}
+				return i
+			}
+			label = nil
+			continue
+		}
+		if sym, isSym := a.(*SexpSymbol); isSym && sym.colonTail {
+			if k == i {
+				return -1
+			}
+			label = sym
+		}
+	}
+	return i
+}
+
 func (sf *SexpFunction) SetClosing(clos *Closing) {
 	ps4 := NewPrintStateWithIndent(4)
 	pre, err := sf.ShowClosing(clos.env, ps4, "prev")
